@@ -50,6 +50,9 @@ func c17Data(r *rng.R) *document.TemplateData {
 	d.SetCondition("c", r.Bool())
 	d.SetList("xs", []interface{}{gen.Word(r, 1, 4), gen.Word(r, 1, 4)})
 	d.SetList("rows", []interface{}{map[string]interface{}{"k": gen.Word(r, 1, 4), "on": r.Bool()}, map[string]interface{}{"k": gen.Word(r, 1, 4), "on": r.Bool()}})
+	// a picture of a random format for {{#image pic}} placeholders (unique bytes per data set)
+	im := gen.MakeImage([]string{"png", "jpeg", "gif"}[r.Intn(3)], 50000+r.Intn(1<<20), r.Range(2, 9), r.Range(2, 9))
+	d.SetImageFromData("pic", im.Data, nil)
 	return d
 }
 
@@ -90,6 +93,19 @@ func c17BaseDoc(seed uint64, workDir string) *document.Document {
 	if r.Bool() {
 		s.Doc.AddHeader(document.HeaderFooterTypeDefault, "hdr {{x}}")
 	}
+	if r.Bool() {
+		// placeholders inside a nested table
+		if t, err := s.Doc.AddTable(&document.TableConfig{Rows: 1, Cols: 2, Width: 5000}); err == nil && t != nil {
+			t.SetCellText(0, 0, "outer {{name}}")
+			if nt, err := t.AddNestedTable(0, 1, &document.TableConfig{Rows: 1, Cols: 2, Width: 2000}); err == nil && nt != nil {
+				nt.SetCellText(0, 0, "nested {{x}}")
+				nt.SetCellText(0, 1, "{{name}}")
+			}
+		}
+	}
+	if r.Chance(3, 4) {
+		s.Doc.AddParagraph("{{#image pic}}")
+	}
 	return s.Doc
 }
 
@@ -109,6 +125,13 @@ func c17Sequential(c *core.Ctx, r *rng.R) *core.Result {
 	var order []string
 	var log []string
 	version := 0
+	// documents produced by earlier renders stay alive: later renders must not change what they serialise to
+	type keptRender struct {
+		d    *document.Document
+		out  map[string]string
+		from string
+	}
+	var kept []*keptRender
 	note := func() string { return "calls: " + strings.Join(tail(log, 16), " ") }
 
 	render := func(name string, data *document.TemplateData, viaTpl bool) (map[string]string, string) {
@@ -127,7 +150,21 @@ func c17Sequential(c *core.Ctx, r *rng.R) *core.Result {
 		if err != nil || d == nil {
 			return nil, fmt.Sprintf("error: %v", err)
 		}
-		return renderOutcome(d)
+		out, msg := renderOutcome(d)
+		for _, k := range kept {
+			now, _ := renderOutcome(k.d)
+			res.Count("earlier_renders_rechecked", 1)
+			if part, df := canonDiff(k.out, now); part != "" {
+				res.Add("independence/earlier-render-changed-by-later-render", fmt.Sprintf("a document rendered earlier from %s serialises differently after a later render of %s: part %s: %s", k.from, name, part, df), "calls: "+strings.Join(tail(log, 16), " "))
+			}
+		}
+		if out != nil {
+			kept = append(kept, &keptRender{d: d, out: out, from: name})
+			if len(kept) > 4 {
+				kept = kept[1:] // the four most recent renders stay under observation
+			}
+		}
+		return out, msg
 	}
 	relation := func(changed, observed string) string {
 		// how the template whose load triggered the check relates to the observed one
@@ -232,7 +269,7 @@ func c17Sequential(c *core.Ctx, r *rng.R) *core.Result {
 			loaded[def.name] = l
 			l.result, _ = render(def.name, l.data, false)
 			recheck("LoadTemplate", def.name)
-		case k < 62: // load a document template
+		case k < 68: // load a document template
 			version++
 			def := tplDef{name: fmt.Sprintf("d%d", r.Intn(3)), isDoc: true, docSeed: r.U64(), version: version}
 			base := c17BaseDoc(def.docSeed, c.WorkDir)
@@ -257,6 +294,13 @@ func c17Sequential(c *core.Ctx, r *rng.R) *core.Result {
 				break
 			}
 			name := order[r.Intn(len(order))]
+			if r.Bool() { // prefer document templates: they carry the shared structures (relationships, parts, nested tables)
+				for _, nm := range order {
+					if loaded[nm] != nil && loaded[nm].def.isDoc {
+						name = nm
+					}
+				}
+			}
 			l := loaded[name]
 			if l == nil {
 				break
@@ -584,7 +628,7 @@ func init() {
 			}
 			return c17Sequential(c, r)
 		},
-		RaceCases:      func(t string) int { return tierN(t, 200, 5000) },
+		RaceCases:      func(t string) int { return tierN(t, 150, 5000) },
 		RaceClass:      c17RaceClass,
 		Assume:         []string{"replacing or removing a template that other loaded templates extend is not generated for the independence oracle (what the children then show is not specified)", "callers do not mutate TemplateData while rendering", "the race detector only sees the interleavings that occurred"},
 		CrashIsFinding: true,
